@@ -77,8 +77,9 @@ class Registry:
     def axiom(self, name, vars, expr):
         self.axioms.append((name, dict(vars), expr))
 
-    def lemma(self, name, props, vars, assumes, goal, induction=None):
-        self.lemmas.append(dict(name=name, props=list(props), vars=dict(vars), assumes=list(assumes), goal=goal, induction=induction))
+    def lemma(self, name, props, vars, assumes, goal, induction=None, background=True):
+        self.lemmas.append(dict(name=name, props=list(props), vars=dict(vars), assumes=list(assumes), goal=goal, induction=induction,
+                                background=background))
 
     def define(self, name, params, expr):
         self.defs[name] = (list(params), expr)
